@@ -9,6 +9,10 @@
    At the level of the model: the merge primitive -- branching.if_then_else on the branch condition, through the operator
    dispatch -- returns backup + cond * (value - backup), i.e. the core's [merge] on 0/1 conditions (C09_merge_primitive), and
    the constraints of every block-API program are satisfied by the recorded witness (C09_constraints_satisfied = C01).
+   The whole merge at block exit (Prog.merge_bak = BranchContext.exit's loop over the variables assigned in the block) is proved
+   for variables holding secret integers: afterwards every such variable holds backup + cond * (value - backup), every other
+   variable of the dictionary is untouched (C09_merge_at_block_exit; it assumes Python's "a is b implies a == b" for the
+   identity shortcut of if_then_else).
    Not proved in Coq: that Model/Prog.v's model of the block API (gen_top / ctx_enter / ctx_exit / ctx_while, which also
    carries the constraints, the guards, object identities and the nodefvals bookkeeping) refines this value-level core;
    that model is tied to the code by the trace correspondence, and the check compares every generated program with a
@@ -16,7 +20,7 @@
 From Coq Require Import ZArith List Bool Lia Znumtheory.
 From PySnark.Base Require Import FieldZ.
 From PySnark.Model Require Import Lc Sym Good Gadgets Api Prog.
-From PySnark.Proofs Require Import BranchCore Meta FieldOk Wp WpBase GadgetsOK Values OpValues ProgOK Complete.
+From PySnark.Proofs Require Import BranchCore Meta FieldOk Wp WpBase GadgetsOK Values OpValues ProgOK Complete MergeValues.
 Import ListNotations.
 Open Scope Z_scope.
 
@@ -33,6 +37,22 @@ Theorem C09_merge_primitive : forall (p : Z) ins ig (c : cfg) (s : @Gadgets.gst 
   Values.returns ins ig (if_then_else c (pyop c) (PBool o cb) (PLC t) (PLC f)) s sg
     (OpValues.is_lc ins ig (fun r => r = Sym.veval p ins ig sg (sval f) + Sym.veval p ins ig sg (sval cb) * (Sym.veval p ins ig sg (sval t) - Sym.veval p ins ig sg (sval f)))).
 Proof. intros p ins ig c s sg cb t f o I H. exact (op_select ins ig c s sg I cb t f o H). Qed.
+(* BranchContext.exit in the model: the merge of ALL variables assigned in a block (secret integers), for every value of the
+   branch condition wire cb, every generator state satisfying the invariant, every store.  [wp ... Q] for every Q implied by
+   the look-up facts = every run of the merge (Wp.wp_sound) ends in a state with those facts. *)
+Theorem C09_merge_at_block_exit : forall (p : Z) ins ig (c : cfg) o cb (bak : Prog.bdict (p:=p)) (s0 : @Gadgets.gst p) sg0,
+  WpBase.Inv ins ig s0 sg0 -> sc s0 cb ->
+  forall (new : list (nat * Sym.slc p)) (acc : Prog.bdict (p:=p)) (Q : Prog.bdict (p:=p) -> @Gadgets.gst p -> Sym.store -> Prop),
+  NoDup (map fst new) -> Forall (pre ins ig bak s0 sg0) new ->
+  (forall r s' sg', WpBase.Inv ins ig s' sg' -> ext sg0 sg' ->
+     (forall nm t, In (nm, t) new -> exists x f, dget r nm = Some (PLC x) /\ dget bak nm = Some (PLC f) /\ sc s' x /\
+        Sym.veval p ins ig sg' (sval x) = sel (Sym.veval p ins ig sg0 (sval cb)) (Sym.veval p ins ig sg0 (sval t)) (Sym.veval p ins ig sg0 (sval f))) ->
+     (forall nm, ~ In nm (map fst new) -> dget r nm = dget acc nm) -> Q r s' sg') ->
+  Wp.wp ins ig (merge_bak c (PBool o cb) bak (map (fun nt => (fst nt, PLC (snd nt))) new) acc) s0 sg0 Q.
+Proof. intros p ins ig c o cb bak s0 sg0 I0 Scb new acc Q. exact (merge_bak_lookup ins ig c o cb bak s0 sg0 I0 Scb new acc Q). Qed.
+(* the selection is the native choice on 0/1 conditions *)
+Theorem C09_selection_is_native_choice : forall t f, sel 1 t f = t /\ sel 0 t f = f.
+Proof. intros t f. split; [apply sel_1|apply sel_0]. Qed.
 (* the constraints emitted by block-API programs are satisfied by the recorded witness, whichever branches are taken *)
 Theorem C09_constraints_satisfied : forall (p : Z) (c : cfg) (pr : list stmt) (ins : list Z),
   prime p -> forallb noign pr = true ->
@@ -54,6 +74,15 @@ Example C09_example :
   (s 1%nat, s 2%nat, s 3%nat) = (0, 44, 2).
 Proof. split; [cbn; repeat split; lia|vm_compute; reflexivity]. Qed.
 
+(* non-vacuity at the level of the model: x = 5; _.v = x; if _if(c): _.v = x*x; _endif(); read _.v  --  for both values of c *)
+Example C09_model_example :
+  let pr := [SInput 0 IPriv 0; SInput 1 IPrivBool 1; SBSet 7 0; SOIf 1 [SBin 2 OMul 0 0; SBSet 7 2] [] None; SBGet 3 7] in
+  let run cv := model_run (p:=65537) {| bitlength := 8%nat; resolution := 0 |} pr [5; cv] false in
+  (nth 3 (map (fun o => snd (fst o)) (outs (run 0))) 0, raised (run 0)) = (5, None) /\
+  (nth 3 (map (fun o => snd (fst o)) (outs (run 1))) 0, raised (run 1)) = (25, None).
+Proof. vm_compute. split; reflexivity. Qed.
+
 Print Assumptions C09_oblivious_equals_native.
 Print Assumptions C09_merge_primitive.
+Print Assumptions C09_merge_at_block_exit.
 Print Assumptions C09_untouched_variables_keep_their_value.
